@@ -315,13 +315,14 @@ _READ_GLOBALS: List[str] = []
 def read_globals(inv) -> List[str]:
     """inventory entries that are written at run time and read by a non-sink function in some operation (derive = shared / rewrittenBeforeRead)"""
     roles = lean_roles()
+    unknown = (["construct", "reset", "step"], False)   # a function the committed table does not know: assume the worst (any operation, no sink)
     out = []
     for name, e in sorted(inv.entries.items()):
         if not e["writers"] or e["kind"] == "module-logger":
             continue
-        if not any(roles.get(w, ([], True))[0] for w in e["writers"]):
+        if not any(roles.get(w, unknown)[0] for w in e["writers"]):
             continue   # written by no environment operation (CLI, import time)
-        if any(roles.get(r, ([], True))[0] and not roles.get(r, ([], True))[1] for r in e["readers"]):
+        if any(roles.get(r, unknown)[0] and not roles.get(r, unknown)[1] for r in e["readers"]):
             out.append(name)
     return out
 
@@ -1030,39 +1031,39 @@ def _do_order(rec: Rec, unit: dict):
             for c in a.get("observation_space", {}).get("options", {}).get("components", []):
                 if "include_nmne" in c.get("options", {}):
                     c["options"]["include_nmne"] = False
-    r = iord.monitor_build(cfg, _READ_GLOBALS, _W["inv"], lean_roles())
-    rec.count("order:operations-monitored", 2)
+    r = iord.monitor_build(cfg, _READ_GLOBALS, _W["inv"], lean_roles(), seeds=(rng.range(1, 2 ** 31), 0))
+    rec.count("order:operations-monitored", r["operations"])
     rec.count("order:call-events", r["events"])
     rec.count("order:reader-calls-after-the-operation's-write", r["reads_after_write"])
+    rec.count("order:generator-draws-after-the-operation's-seeding", r["draws_after_seed"])
     rec.case({"k": "order", "sc": label, "n": r["events"]}, True)
     rec.oblige("rig: every non-sink reader function of the readable run-time written globals could be resolved for monitoring", "correspondence",
                not r["unresolved"], f"{r['unresolved']}")
-    # cross-check of the STATIC call graph (Gen.reachBeforeWrite): the package functions ENTERED before the operation's write on this run
+    # cross-check of the STATIC call graph (Gen.reachBeforeWrite): the package functions ENTERED before the operation's seeding on this run
     inv = _W["inv"]
     static: Dict[str, set] = {}
     for row in inv.reach:
-        static.setdefault(row["op"], set()).update(row["reached"])
+        if row["entry"] == x_ss.GENERATORS:
+            static.setdefault(row["op"], set()).update(row["reached"])
     for op in ("__init__", "reset"):
-        allowed = static.get(op, set()) | static.get("from_config", set()) | {"session.environment:PrimaiteGymEnv." + op, x_ss.ANCHOR}
+        allowed = static.get(op, set()) | {"session.environment:PrimaiteGymEnv." + op, "session.environment:set_random_seed"}
         dyn = {f for f in r["before_write"][op] if f in inv.callgraph.byqual}      # class bodies executed by a first import are no functions
         missed = sorted(dyn - allowed)
-        rec.count("order:functions-entered-before-the-write", len(dyn))
+        rec.count("order:functions-entered-before-the-seeding", len(dyn))
         rec.count("order:…of-which-in-the-static-call-graph", len(dyn & allowed))
-        bad = []
-        for n in _READ_GLOBALS:
-            rd, trunc = x_ss.readers_reachable_from(inv, missed, n)
-            if rd or trunc:
-                bad.append((n, rd, trunc))
+        rd, trunc = x_ss.drawers_reachable_from(inv, missed)
         for f in missed:
             rec.count("order:entered-but-not-in-static-graph(callback from third-party code):" + f)
-        rec.oblige(f"extractor cross-check[{label}/{op}]: every package function entered before the operation's write is in the static call "
-                   "graph, or (callbacks invoked by pydantic / logging) reaches no reader of the global itself", "extractor", not bad,
-                   f"missed={missed} reach readers: {bad}")
+        rec.oblige(f"extractor cross-check[{label}/{op}]: every package function entered before the operation's seeding is in the static call "
+                   "graph, or (callbacks invoked by pydantic / logging) reaches no function that draws from a global generator", "extractor",
+                   not rd and not trunc, f"missed={missed} reach drawers: {rd} truncated={trunc}")
     for p in r["problems"][:2]:
+        what = {"read-before-own-write": "read by " + str(p.get("reader", "?")) + " before the operation has written it",
+                "not-rewritten": "not written at all: the operation leaves what an earlier episode / another instance installed",
+                "draw-before-seed": "drawn by " + str(p.get("reader", "?")) + " before the operation has seeded them",
+                "not-seeded": "not seeded although the operation was given a seed: the episode continues the stream earlier episodes left"}[p["kind"]]
         rec.violation({"kind": "operation-order", "what": p["kind"], "global": p["global"].split(".")[-1]},
-                      f"{label}: in `{p['operation']}` the global {p['global']} is " +
-                      ("read by " + p.get("reader", "?") + " before the operation has written it" if p["kind"] == "read-before-own-write" else
-                       "not written at all: the operation leaves what an earlier episode / another instance installed"),
+                      f"{label}: in `{p['operation']}` the global {p['global']} is " + what,
                       {"type": "operation-order", "cfg": cfg, "problem": p})
-    rec.sample({"rig": "operation-order", "scenario": label, "call_events": r["events"], "reader_calls_after_write": r["reads_after_write"],
-                "write_at_event": r["write_event"], "readers": r["readers_monitored"]}, cap=10)
+    rec.sample({"rig": "operation-order", "scenario": label, "call_events": r["events"], "seed_call_at_event": r["seed_event"],
+                "draws_after_seed": r["draws_after_seed"], "drawers": r["drawers_monitored"]}, cap=10)
